@@ -180,6 +180,9 @@ impl MT202 {
             None
         };
 
+        // Verify all content is consumed
+        verify_parser_complete(&parser)?;
+
         Ok(MT202 {
             field_20,
             field_21,
